@@ -1,7 +1,7 @@
 (* C17 over Coq's real numbers: the hypotheses of the density theorem hold for R with the usual
    sqrt / exp / PI and `pow y 2 = y * y`, hence Gaussian::probability as written IS the normal
    density for every mean, every variance > 0 and every point. *)
-From Coq Require Import Reals Lra List NArith.
+From Coq Require Import Reals Lra Lia List NArith Arith.
 From EasyML Require Import Base.Sx Model.Num Model.Gaussian Proofs.C14P Proofs.RealOps Proofs.C17P.
 Open Scope R_scope.
 
@@ -78,3 +78,85 @@ Qed.
 
 Lemma standard_deviation_squared (var : R) : 0 <= var -> sqrt var * sqrt var = var.
 Proof. apply sqrt_sqrt. Qed.
+
+(* ---- session 3: the multivariate draw over the reals, in full ---- *)
+(* a standard normal pair: mean 0, variance 1 (sqrt 1 = 1) *)
+Theorem standard_normal_real (u v : R) :
+  box_muller Rops (standard_normal Rops) u v =
+  (sqrt (-2 * ln u) * cos (2 * PI * v), sqrt (-2 * ln u) * sin (2 * PI * v)).
+Proof.
+  unfold standard_normal. rewrite box_muller_real. cbn. rewrite sqrt_1. f_equal; ring.
+Qed.
+
+(* every present multivariate draw over the reals: there is the Cholesky routine's factor L of
+   the covariance, and for every sample row r a vector z_r of n standard normals — entry 2j / 2j+1
+   is sqrt(-2 ln u) cos(2 pi v) / sqrt(-2 ln u) sin(2 pi v) for the source numbers u, v at
+   positions r*w + 2j, r*w + 2j + 1 (w = 2 ceil(n/2): each row consumes whole pairs) — with
+   rows[r][i] = mean[i] + sum_j L[i][j] z_r[j] *)
+Theorem mv_draw_real (mean : list R) (cov : list (list R)) (src : list R) (k ns nf : nat)
+    d0 d1 rows rest :
+  length mean = length cov ->
+  draw_tensor_samples Rops mean cov src (N.of_nat k) ns nf = (Some (d0, d1, rows), rest) ->
+  let n := length mean in
+  let w := width n in
+  exists L, cholesky Rops cov = Some L /\ length rows = k /\
+  forall r, (r < k)%nat ->
+    exists z, length z = n /\
+      (forall j, (2 * j < n)%nat ->
+         nth (2 * j) z 0 = sqrt (-2 * ln (nth (r * w + 2 * j) src 0))
+                           * cos (2 * PI * nth (r * w + 2 * j + 1) src 0)) /\
+      (forall j, (2 * j + 1 < n)%nat ->
+         nth (2 * j + 1) z 0 = sqrt (-2 * ln (nth (r * w + 2 * j) src 0))
+                               * sin (2 * PI * nth (r * w + 2 * j + 1) src 0)) /\
+      (forall i, (i < n)%nat ->
+         nth i (nth r rows nil) 0 = nth i mean 0 + inner Rops (nth i L nil) z).
+Proof.
+  intros Hlen H n w. rewrite draw_tensor_samples_spec in H.
+  destruct (Nat.eqb ns nf); [discriminate|].
+  destruct (cholesky Rops cov) as [L|] eqn:HL; [|discriminate].
+  destruct (Nat.eqb k 0); [discriminate|]. fold n w in H.
+  destruct (Nat.leb_spec (k * w) (length src)) as [Hsrc|]; [|discriminate].
+  inversion H; subst; clear H. exists L. split; [reflexivity|].
+  split; [now rewrite map_length, seq_length|].
+  intros r Hr. exists (std_row Rops n src r).
+  assert (Hrow : ((r + 1) * w <= length src)%nat) by nia.
+  destruct (std_row_values Rops n src r 0 Hrow) as [Hzl Hz]. fold w in Hz.
+  split; [exact Hzl|]. split; [|split].
+  - intros j Hj. destruct (Hz j) as [H1 _]. rewrite (H1 Hj), standard_normal_real. reflexivity.
+  - intros j Hj. destruct (Hz j) as [_ H2]. rewrite (H2 Hj), standard_normal_real. reflexivity.
+  - intros i Hi. rewrite (C14P.nth_map_seq _ k r nil) by assumption.
+    apply (affine_entry Rops Rops_is_field); [exact Hi|].
+    rewrite (cholesky_length Rops cov L HL). now rewrite <- Hlen.
+Qed.
+
+(* ---- what the documentation of `probability` says about the density, over the reals: it is
+   positive everywhere, symmetric about the mean, largest AT the mean (value 1/sqrt(2 pi var)) ---- *)
+Theorem pdf_real_shape (mean var : R) : 0 < var ->
+  let p := probability Rops (mkGaussian mean var) in
+  (forall x, 0 < p x) /\ (forall d, p (mean + d) = p (mean - d)) /\
+  (forall x, p x <= p mean) /\ p mean = 1 / sqrt (2 * PI * var).
+Proof.
+  intros Hv p. unfold p.
+  assert (Hs : 0 < sqrt (2 * PI * var)).
+  { apply sqrt_lt_R0. pose proof PI_RGT_0. nra. }
+  assert (Hc : 0 < 1 / sqrt (2 * PI * var)) by (apply Rdiv_lt_0_compat; lra).
+  assert (Hmean : probability Rops (mkGaussian mean var) mean = 1 / sqrt (2 * PI * var)).
+  { rewrite (pdf_real mean var mean Hv).
+    replace (- ((mean - mean) * (mean - mean)) / (2 * var)) with 0 by (field; lra).
+    rewrite exp_0. ring. }
+  split; [|split; [|split]].
+  - intros x. rewrite (pdf_real mean var x Hv). apply Rmult_lt_0_compat; [exact Hc | apply exp_pos].
+  - intros d. rewrite !(pdf_real mean var _ Hv).
+    replace ((mean + d - mean) * (mean + d - mean)) with ((mean - d - mean) * (mean - d - mean)) by ring.
+    reflexivity.
+  - intros x. rewrite Hmean, (pdf_real mean var x Hv).
+    rewrite <- (Rmult_1_r (1 / sqrt (2 * PI * var))) at 2.
+    apply Rmult_le_compat_l; [lra|].
+    set (e := - ((x - mean) * (x - mean)) / (2 * var)).
+    assert (He : e <= 0).
+    { unfold e. pose proof (Rle_0_sqr (x - mean)) as Hsq. unfold Rsqr in Hsq.
+      unfold Rdiv. assert (0 < / (2 * var)) by (apply Rinv_0_lt_compat; lra). nra. }
+    destruct He as [Hlt | ->]; [|rewrite exp_0; lra].
+    rewrite <- exp_0. left. now apply exp_increasing.
+  - exact Hmean.
+Qed.
